@@ -239,11 +239,13 @@ def mgf1(seed, n, h):
     return out[:n]
 
 
-def pss_encode(mhash, embits, salt, h, trailer=0xbc, sep=1, top=0):
+def pss_encode(mhash, embits, salt, h, trailer=0xbc, sep=1, top=0, ps=None):
     hl = len(mhash)
     emlen = (embits + 7) // 8
     hh = hashlib.new(h, bytes(8) + mhash + salt).digest()
-    ps = bytes(emlen - len(salt) - hl - 2)
+    if ps is None:
+        ps = bytes(emlen - len(salt) - hl - 2)
+    assert len(ps) == emlen - len(salt) - hl - 2
     db = ps + bytes([sep]) + salt
     mask = mgf1(hh, len(db), h)
     mdb = bytearray(x ^ y for x, y in zip(db, mask))
@@ -368,6 +370,24 @@ def forgery_case(item):
                        True, 0)
                 try_em("other-message-hash", pss_encode(
                     hashlib.new(h, msg + b"!").digest(), embits, salt, h))
+                # non-canonical padding string: PS must be all zero
+                pl = (embits + 7) // 8 - hl - hl - 2
+                for pos in sorted(set((0, 1, 2, pl // 2, pl - 2, pl - 1))):
+                    for val in (0x01, 0x02, 0x40, 0x80, 0xff):
+                        if pos == 0 and val & ~(0xff >> (
+                                8 * ((embits + 7) // 8) - embits)):
+                            continue    # those bits are cleared by the mask
+                        ps = bytearray(pl)
+                        ps[pos] = val
+                        try_em("ps[%d]=%02x" % (pos, val), pss_encode(
+                            mh, embits, salt, h, ps=bytes(ps)))
+                try_em("ps-all-ff", pss_encode(
+                    mh, embits, salt, h, ps=b"\x7f" + b"\xff" * (pl - 1)))
+                try_em("ps-all-02", pss_encode(
+                    mh, embits, salt, h, ps=b"\x02" * pl))
+                try_em("ps-nonzero-sep-00", pss_encode(
+                    mh, embits, salt, h, sep=0, ps=b"\x00" * (pl - 1) +
+                    b"\x01"))
     elif kind == "ecdsa":
         from ecdsa.util import sigdecode_der
         for cred, h in ECDSA_KEYS[:4]:
